@@ -267,6 +267,24 @@ CLAIMS = {
         'additionalProperties: false) is pinned by the existing tests and not repaired. No axioms.',
    technique='translation validation by an independent validator + Coq soundness theorem of the rule->keyword translation for numeric bounds',
    ref='section 9, C08'),
+ 'C02': dict(
+   category='other',
+   text='Two parts. (1) Coq totality theorems for the models of the byte-level entry points, each tied to the code by the correspondence '
+        'of its own property: the JSON document scanner (lexemes or error 301/303 inside the text, never a panic), NewNumber (a number or '
+        'an error for every byte string: the exponent is never read past the end nor turned into an allocation beyond the limit), '
+        'GuessSchemaType/json.Guess, the enum rule parser, the regex schema (accepted or a positioned error), the rendering of a '
+        'diagnostic. (2) Supervised execution of EVERY public operation (Len, Check, Example, GetAST, UsedUserTypes, OpenAPI conversion, '
+        'AddType/AddRule, enum, regex, JSON documents in both modes, NewNumber, GuessSchemaType) under a 3 GB address-space limit and a '
+        'per-case timeout, with recover() around each call and bisection of a batch that does not come back, on: every prefix, every '
+        'single-byte deletion and random special-byte edits of valid inputs of each kind; pathological sizes (deep nesting, 10^5 items, huge '
+        'exponents); configurations of three user types over 18 bodies (self-naming choices, key shortcuts, allOf, or, additionalProperties, '
+        'enum rules) in both registration styles.',
+   note='A theorem cannot exhibit a stack overflow, an out-of-memory abort or a slow run: those are runtime behaviour; the totality theorems '
+        'cover the logic of the modelled entry points only (the schema scanner/loader/compiler are not modelled state by state), and the rest '
+        'is observed on the inputs above - hence category other. Example() and the OpenAPI conversion are quadratic in the nesting depth '
+        '(20000 levels: about 12 s): bounded, recorded as an observation. No axioms.',
+   technique='Coq totality proofs of the entry-point models + supervised mutation/size/configuration runs of every public operation',
+   ref='section 9, C02'),
 }
 
 def main():
